@@ -71,9 +71,18 @@ Several grids alive at once (sub-check "twin", every "grid" case): two grids bui
   the same grid, refining them leaves the original untouched and vice versa.
 Argument forms (sub-check "forms", every "grid" case, `_forms_invariants` / FORMS): the same constructor call with the arguments
   positionally, as numpy scalars (np.float64 / np.int64 / np.bool_, also inside sequences), bounds / thresholds as ndarray,
-  list <-> tuple, flags as int, integral h / bounds as Python ints (model-free constructors) returns EXACTLY the same grid and
-  refines to the same grid; the caller's lists / arrays are not modified by the constructor or refine(); overwriting the
-  caller's bounds / thresholds afterwards does not move the grid (also through a further refine()).
+  list <-> tuple, flags as int returns EXACTLY the same grid and refines to the same grid; the caller's lists / arrays are not
+  modified by the constructor or refine(); overwriting the caller's bounds / thresholds afterwards does not move the grid
+  (also through a further refine()).
+  Integral h (`_integral_h_cases`: h = 1.0 and 2.0 for EVERY constructor, on models with jumps of size one - Merton sigma_j = 1,
+  HEM eta = 1.5 / 1, their 2-d copula model - and the model-free constructors / raw axes with integral states): the same call
+  with every integral float (h, bounds) as a Python int and as a numpy int (forms `integral-floats-as-ints`,
+  `integral-floats-as-numpy-ints`; np.float64 is the form `numpy-scalars`). A constructor may reject an integer (TypeError /
+  ValueError from the constructor call: counted `integer_form_rejected_by_the_constructor`, class
+  `argument-form:<form>:rejected-by:<constructor>`; uniform, geometric and credit do so on the pinned tree); a grid that IS
+  returned must satisfy the state invariants (keys `C13:forms-state:...:<form>`: strictly increasing, 0 at the origin index,
+  -h / +h next to it - an integer-dtype half axis truncates the inserted states) and be exactly the grid of the float form,
+  also after refine().
 Observations (recorded, never asserted): the coordinate object captured before refine() is mutated in place (aliasing);
   create_from_fixed_nb_of_points(n even) returns n+1 points.
 
@@ -109,8 +118,8 @@ Outside the alphabet (statement silent): credit thresholds that are not strictly
   the construction (its middle() keeps a reference to the measure; the statement ties refine() to the grid's own middle()),
   changes of a model through private attributes; probability-step gaps narrower than 3e-7 (the pinned tree's own root search
   stops at 1e-10: some 30 refinements of h = 0.1, beyond any enumerable depth);
-  argument forms the pinned tree rejects (an integer h for the model-based constructors and CTMCGrid, integer-dtype or
-  float32 axes, a tuple of axes, a scalar threshold for a copula model, a float number of points: TypeError / ValueError), a
+  argument forms the pinned tree rejects (integer-dtype or float32 axes, a tuple of axes, a scalar threshold for a copula
+  model, a float number of points: TypeError / ValueError; an integer h is IN the alphabet: counted where rejected), a
   0-d array as h (refine() halves the caller's array in place: `self.h /= 2`), copy.copy of a grid (shares the list of axes
   with the original by definition), arrays handed to the base constructor CTMCGrid modified afterwards (the grid IS those
   arrays; only that the constructor and refine() leave the caller's array objects unchanged is asserted).
@@ -184,6 +193,9 @@ RAW_AXES = {
     "raw2": [[-0.5, -0.1, 0.0, 0.1, 0.3, 0.9], [-0.4, -0.1, 0.0, 0.1]],
     "raw3": [[-0.5, -0.1, 0.0, 0.1], [-0.7, -0.1, 0.0, 0.1, 0.25], [-0.2, -0.1, 0.0, 0.1, 0.2, 0.4]],
     "raw2-equal-copies": [[-0.3, -0.1, 0.0, 0.1, 0.5], [-0.3, -0.1, 0.0, 0.1, 0.5]],
+    # integral states (float arrays) for an integral h
+    "raw1-integral": [[-5.0, -1.0, 0.0, 1.0, 3.0, 9.0]],
+    "raw2-integral": [[-6.0, -2.0, 0.0, 2.0, 8.0], [-4.0, -2.0, 0.0, 2.0]],
 }
 
 
@@ -235,6 +247,38 @@ HEAVY_WRAPPED = [
     {"wrap": "forward", "cmodel": HEAVY_CMODELS[0]},
     {"wrap": "forward", "model": HEAVY_MODELS[1]},
 ]
+
+# models with jumps of size one, for grids with an INTEGRAL step h (1, 2): the same call is repeated with h (and every other
+# integral float) as a Python int and as a numpy int (forms "integral-floats-as-ints" / "-as-numpy-ints")
+UNIT_MODELS = [
+    {"family": "merton", "exp": False, "params": {"sigma": 0.0, "sigma_j": 1.0, "mu_j": 0.0, "intensity": 3.0}},
+    {"family": "hem", "exp": False, "params": {"sigma": 0.05, "p": 0.6, "eta1": 1.5, "eta2": 1.0, "intensity": 3.0}},  # eta1 > 1 required
+]
+MARGINS["merton1"] = UNIT_MODELS[0]
+MARGINS["hem1"] = UNIT_MODELS[1]
+UNIT_CMODEL = {"margins": ["merton1", "hem1"], "copula": {"kind": "clayton", "theta": 0.7, "eta": 0.3}}
+
+
+def _integral_h_cases(add):
+    for h in (1.0, 2.0):
+        for m in UNIT_MODELS:
+            for g in ({"kind": "uniform", "h": h, "p": 0.99999}, {"kind": "uniform", "h": h, "p": 0.9},
+                      {"kind": "geometric", "h": h, "n_side": 3, "p": 0.99999},
+                      {"kind": "probability", "h": h, "pmin": 0.2}, {"kind": "probability", "h": h, "pmin": 0.05},
+                      {"kind": "probability", "h": h, "pmin": 0.2, "dim": 2},
+                      {"kind": "credit", "h": h, "a_frac": 0.5, "symmetric": True},
+                      {"kind": "credit", "h": h, "a_frac": 0.3, "symmetric": False}):
+                add(g, g.get("dim", 1), model=m)
+        for g in ({"kind": "uniform", "h": h, "p": 0.99999}, {"kind": "geometric", "h": h, "n_side": 3, "p": 0.99999},
+                  {"kind": "credit", "h": h, "a_frac": [0.5, 0.3], "symmetric": True},
+                  {"kind": "credit", "h": h, "a_frac": [0.5, 0.3], "symmetric": False}):
+            add(g, 2, cmodel=UNIT_CMODEL)
+    add({"kind": "fixed", "h": 2.0, "n": 4}, 1)
+    add({"kind": "fixed", "h": 1.0, "n": 7}, 3)
+    add({"kind": "geometric-bounds", "h": 2.0, "bounds": [-8.0, 6.0], "n_side": 3}, 1)
+    add({"kind": "raw", "h": 1.0, "name": "raw1-integral"}, 1)
+    add({"kind": "raw", "h": 2.0, "name": "raw2-integral"}, 2)
+
 
 _HEM0 = {"family": "hem", "exp": False, "params": {}}
 _VG0 = {"family": "vg", "exp": False, "params": {}}
@@ -373,7 +417,8 @@ def cases(tier):
     add({"kind": "geometric-bounds", "h": 0.1, "bounds": [-0.7, 0.4], "n_side": 2, "depth": deep}, 2)
     add({"kind": "raw", "h": 0.1, "name": "raw2", "depth": deep - 2}, 2)
     for name in sorted(RAW_AXES):
-        add({"kind": "raw", "h": 0.1, "name": name}, len(RAW_AXES[name]))
+        if not name.endswith("-integral"):
+            add({"kind": "raw", "h": 0.1, "name": name}, len(RAW_AXES[name]))
 
     # 1-d models
     indep = {"fixed", "geometric-bounds"}
@@ -393,6 +438,9 @@ def cases(tier):
     for m in specs:
         for g in g1:
             add(g, g.get("dim", 1), model=m)
+
+    # integral h on models with jumps of size one, every constructor (argument forms: h as Python int / numpy int)
+    _integral_h_cases(add)
 
     # degenerate options: truncation probability 0 (root at h/2: the bound is forced out to h) and 1 (no root: refusal), a
     # minimum probability step of 1 (no step found: each half-axis is h and one closing state)
@@ -1345,16 +1393,27 @@ def _integral_as_int(v):
     return v
 
 
+def _integral_as_numpy_int(v):
+    if isinstance(v, float) and v.is_integer():
+        return np.int64(v)
+    if isinstance(v, (list, tuple)) and v and all(isinstance(x, float) and x.is_integer() for x in v):
+        return type(v)(np.int64(x) for x in v)
+    return v
+
+
 FORMS = [
-    # (name, transformation of every argument value, constructors of the form's alphabet: None = all)
-    ("positional", None, None),                 # the same values, positionally in signature order
-    ("numpy-scalars", _to_numpy_scalar, None),  # np.float64 / np.int64 / np.bool_ (also inside the sequences)
-    ("sequences-as-arrays", _to_array, None),   # bounds / thresholds as a float ndarray
-    ("sequences-swapped", _swap_sequence, None),  # list <-> tuple
-    ("flags-as-int", _int_bool, None),          # symmetric_grid = 1 / 0
-    # integral h / bounds as Python ints: the model-free constructors accept them (the model-based ones and CTMCGrid raise
-    # TypeError on an integer h on the pinned tree: outside)
-    ("integral-floats-as-ints", _integral_as_int, ("fixed", "geometric-bounds")),
+    # (name, transformation of every argument value, may the constructor reject the form?)
+    ("positional", None, False),                 # the same values, positionally in signature order
+    ("numpy-scalars", _to_numpy_scalar, False),  # np.float64 / np.int64 / np.bool_ (also inside the sequences)
+    ("sequences-as-arrays", _to_array, False),   # bounds / thresholds as a float ndarray
+    ("sequences-swapped", _swap_sequence, False),  # list <-> tuple
+    ("flags-as-int", _int_bool, False),          # symmetric_grid = 1 / 0
+    # integral h / bounds / thresholds as Python ints and as numpy ints, every constructor. A constructor may REJECT an
+    # integer (TypeError / ValueError raised by the constructor call: counted, `integer_form_rejected_by_the_constructor`;
+    # uniform, geometric and credit do so on the pinned tree); a grid that is returned must satisfy the state invariants
+    # and be the grid of the float form
+    ("integral-floats-as-ints", _integral_as_int, True),
+    ("integral-floats-as-numpy-ints", _integral_as_numpy_int, True),
 ]
 
 
@@ -1378,9 +1437,7 @@ def _forms_invariants(sh, ctx, case, model, s1, ref):
             return [np.array(a, copy=True) for a in v]   # a grid keeps the arrays it is given: every call gets its own
         return list(v) if isinstance(v, list) else v
 
-    for form, tr, kinds in FORMS:
-        if kinds is not None and case["grid"]["kind"] not in kinds:
-            continue
+    for form, tr, rejectable in FORMS:
         usual = {k: own(v, k) for k, v in usual0.items()}
         given = {k: (v if (tr is None or k in ("model", "axes")) else tr(v)) for k, v in usual.items()}
         if tr is not None and all(sig(given[k]) == sig(usual[k]) for k in usual):
@@ -1392,9 +1449,21 @@ def _forms_invariants(sh, ctx, case, model, s1, ref):
         arrays = list(given["axes"]) if "axes" in given else []   # the array objects (refine() re-binds the list's entries)
         sh.cls(f"argument-form:{form}")
         sh.count("evaluations")
+        stage = "constructor"
         try:
             grid = fn(*args, **kwargs)
-            d = _same_snap(s1, _snapshot(grid))
+            stage = "built"
+            snap_f = _snapshot(grid)
+            # the state invariants on the grid of this form (strictly increasing, 0 at the origin index, -h / +h next to it)
+            bad = _state_invariants(sh, ctx, snap_f, 0)
+            for key, what, det in bad:
+                parts = key.split(":")
+                parts[1] = "forms-" + parts[1]
+                out.append((":".join(parts) + f":{form}", f"arguments as {form}: {what}",
+                            {"arguments": {k: repr(v) for k, v in given.items() if k != "model"}, "detail": det}))
+            if bad:
+                continue
+            d = _same_snap(s1, snap_f)
             if d:
                 out.append((f"C13:forms:{comp}:grid-differs-from-that-of-the-usual-argument-form:{form}:{dcls}",
                             f"arguments as {form}: {d}", {"arguments": {k: repr(v) for k, v in given.items() if k != "model"}}))
@@ -1439,6 +1508,10 @@ def _forms_invariants(sh, ctx, case, model, s1, ref):
         except Exception as e:
             import traceback
 
+            if rejectable and stage == "constructor" and isinstance(e, (TypeError, ValueError)):
+                sh.count("integer_form_rejected_by_the_constructor")
+                sh.cls(f"argument-form:{form}:rejected-by:{comp}")
+                continue
             out.append((f"C13:forms:{comp}:constructor-or-refine-raises-for-argument-form:{form}:{type(e).__name__}:{dcls}",
                         f"arguments as {form}: {type(e).__name__}: {e}", {"traceback": traceback.format_exc(limit=5)}))
         sh.count("argument_forms_compared")
